@@ -365,6 +365,107 @@ func seqOnce(x *mc.X) {
 	x.Tag("once=" + k.name)
 }
 
+type boom struct{ n int }
+
+// panicMode: 0 = the thunk panics on its first execution only, 1 = on every execution.
+var panicModes = []string{"panics on its first execution only", "panics on every execution"}
+
+// seqPanic: a deferred computation whose execution panics; the caller recovers and asks
+// again. Only the number of executions is judged: what a later request returns, or whether
+// it panics again, is not stated by the property.
+func seqPanic(x *mc.X) {
+	kinds := onceKinds()
+	k := kinds[x.Choose(len(kinds), "kind")]
+	mode := x.Choose(2, "panic mode")
+	more := 2 + x.Choose(2, "further requests")
+	runs, innerRuns := 0, 0
+	get := k.make(func() int {
+		x.Tick()
+		runs++
+		if mode == 1 || runs == 1 {
+			panic(boom{runs})
+		}
+		return 100 + runs
+	}, func() { innerRuns++ })
+	x.Logf("%s: the thunk %s; requested 1+%d times, every request under recover", k.name, panicModes[mode], more)
+	panicked := 0
+	for i := 0; i < 1+more; i++ {
+		var got int
+		p := mc.Catch(func() { got = get() })
+		if p != nil {
+			panicked++
+			x.Logf("request #%d panicked: %v (thunk executions so far: %d)", i+1, p, runs)
+		} else {
+			x.Logf("request #%d returned %d (thunk executions so far: %d)", i+1, got, runs)
+		}
+	}
+	x.Tag("panic=" + k.name)
+	if panicked > 0 {
+		x.Tag("panic/first-request-panicked-in-the-caller")
+	}
+	x.NonTrivial()
+	if runs > 1 {
+		x.Fail(k.name+"/thunk-ran-twice-after-panic", "%s: the thunk %s and was executed %d times across %d requests (a deferred computation is executed at most once)", k.name, panicModes[mode], runs, 1+more)
+	}
+	if innerRuns > 1 {
+		x.Fail(k.name+"/outer-thunk-ran-twice-after-panic", "%s: the enclosing thunk was executed %d times across %d requests after the inner thunk panicked", k.name, innerRuns, 1+more)
+	}
+	x.Observe(k.name, mode, more, runs, innerRuns)
+}
+
+// concPanic: two threads demand a shared deferred computation whose thunk panics after a
+// scheduling point; every caller recovers.
+func concPanic(k onceKind) func(x *mc.X) {
+	return func(x *mc.X) {
+		mode := x.Choose(2, "panic mode")
+		gets := 1 + x.Choose(2, "demands per thread")
+		const threads = 2
+		runs, innerRuns := 0, 0
+		get := k.make(func() int {
+			runs++
+			r := runs
+			x.Point("thunk", "inside the thunk body, before the panic")
+			if mode == 1 || r == 1 {
+				panic(boom{r})
+			}
+			return 100 + r
+		}, func() {
+			innerRuns++
+			x.Point("outer-thunk", "inside the outer thunk body")
+		})
+		x.Logf("%s shared by %d threads, %d demands each; the thunk %s", k.name, threads, gets, panicModes[mode])
+		returned := make([]int, threads)
+		for i := 0; i < threads; i++ {
+			i := i
+			x.Go(fmt.Sprintf("t%d", i), func() {
+				for g := 0; g < gets; g++ {
+					mc.Catch(func() { get() })
+					returned[i]++
+				}
+			})
+		}
+		blocked := x.AwaitQuiescence()
+		if x.HasFailed() {
+			return
+		}
+		x.Tag(fmt.Sprintf("conc-panic=%s/%s", k.name, panicModes[mode]))
+		if x.Interacted() {
+			x.NonTrivial()
+		}
+		x.Logf("thunk executions: %d, outer thunk executions: %d, requests completed per thread: %v", runs, innerRuns, returned)
+		if len(blocked) > 0 {
+			x.Fail(k.name+"/blocked-after-panic", "%s: threads still blocked at quiescence after the thunk panicked: %v", k.name, blocked)
+		}
+		if runs > 1 {
+			x.Fail(k.name+"/thunk-ran-twice-after-panic", "%s: the thunk %s and was executed %d times under concurrent demand", k.name, panicModes[mode], runs)
+		}
+		if innerRuns > 1 {
+			x.Fail(k.name+"/outer-thunk-ran-twice-after-panic", "%s: the enclosing thunk was executed %d times under concurrent demand after the inner thunk panicked", k.name, innerRuns)
+		}
+		x.Observe(mode, gets, runs, innerRuns)
+	}
+}
+
 // ---------------------------------------------------------------- (b) stack safety
 
 type stackProbe struct {
@@ -584,6 +685,23 @@ func onceKinds() []onceKind {
 			})
 			return func() int { return l.Head() }
 		}},
+		{"list.Map/cell", func(th func() int, _ func()) func() int {
+			l := list.Map(list.Of(7), func(int) int { return th() })
+			return func() int { return l.Head() }
+		}},
+		{"list.Collect/cell", func(th func() int, _ func()) func() int {
+			// the first element is pulled eagerly by Collect; executing the tail cell pulls one
+			// more, so every further pull is one execution of that deferred cell
+			i := 0
+			l := list.Collect(fp.MakeIterator(func() bool { return i < 5 }, func() int {
+				i++
+				if i >= 2 {
+					return th()
+				}
+				return i
+			}))
+			return func() int { return l.Tail().Head() }
+		}},
 		{"lazy.Call.Map", func(th func() int, _ func()) func() int {
 			e := lazy.Call(th).Map(func(a int) int { return a })
 			return e.Get
@@ -667,8 +785,10 @@ func main() {
 	mc.Main("C16", func(r *mc.Registry) {
 		r.Rule = "eval/*: every expression tree with at most N nodes over {Done 1|2, Call ->3, Done(arg) under a FlatMap binder, TailCall, TailCall2, Map f, FlatMap, Map2 g} x Get called 0..3 times x (methods | package functions); non-trivial = demanded and at least two nodes, or a thunk demanded at least twice; distinct = (program, gets, value, thunk executions). " +
 			"stack/*: variant x every depth 0..2000, and variant x ladder rung; call frames sampled inside the recursive function at steps 0..3, powers of two and every 128th (ladder: 65536th) step. " +
+			"eval/panicking-thunk: deferred-computation kind x (thunk panics on its first execution only | on every execution) x 3..4 requests, each under recover; conc-panic/*: the same thunks (panic after a scheduling point) demanded by 2 threads 1..2 times each, every interleaving. Only the execution count (<= 1) is judged there. " +
 			"conc/*: every interleaving (sleep sets) of the threads at every sync.Once entry/exit of the library and at a point inside each thunk body; non-trivial = the scheduler switched between two started threads"
 		r.Assumptions = []string{
+			"'executed at most once, even when the result is requested repeatedly' is read literally: it also holds for a thunk whose execution panicked (sync.Once marks itself done on panic); what later requests return, or whether they panic, is not demanded",
 			"the strict interpreter in the driver (direct recursion over the same tree) defines 'the same value as direct strict evaluation'",
 			"call-stack depth is measured in frames (runtime.Callers) and by the 1 MiB runtime stack limit; a fatal stack overflow kills the worker and is reported with key crash",
 			"the ladder 10^4..2*10^7 is a finite set of depths, not an enumeration of all depths up to 2*10^7; every depth is enumerated up to 2000",
@@ -685,6 +805,7 @@ func main() {
 		sc.SplitDepth = 3
 		sc.Shard = true
 		r.Seq("eval/memoize-sequential", seqOnce)
+		r.Seq("eval/panicking-thunk", seqPanic)
 
 		// (b)
 		variants := stackVariants()
@@ -730,6 +851,8 @@ func main() {
 				shapes = append(shapes, [2]int{3, 2}, [2]int{4, 1})
 			}
 			sc := r.Conc("conc/"+k.name, -1, concScenario(k, shapes))
+			sc.SplitDepth = 3
+			sc = r.Conc("conc-panic/"+k.name, -1, concPanic(k))
 			sc.SplitDepth = 3
 		}
 		r.Extra["bounds"] = map[string]any{
